@@ -33,6 +33,68 @@ func feeOnlyUnit(u vfexec.Unit) vfexec.Unit {
 	return v
 }
 
+// okOnlyUnit: the same unit with empty programs -- transactions that succeed and do nothing but pay
+// their fee (the commit path; feeOnlyUnit takes the rollback path).
+func okOnlyUnit(u vfexec.Unit) vfexec.Unit {
+	v := vfexec.Unit{Group: u.Group}
+	for _, t := range u.Txs {
+		t.ExecOps = nil
+		t.LocOps = nil
+		v.Txs = append(v.Txs, t)
+	}
+	return v
+}
+
+// finalKV is the block's resulting state KV set: last value per key over all receipts, canonical text.
+func finalKV(rs []*types.Receipt) string {
+	m := map[string]string{}
+	for _, r := range rs {
+		for _, kv := range r.KV {
+			m[vfexec.Hx(kv.Key)] = vfexec.AcctRender(kv.Key, kv.Value)
+		}
+	}
+	var parts []string
+	for _, k := range vfexec.SortedKeys(m) {
+		parts = append(parts, k+"="+m[k])
+	}
+	return strings.Join(parts, ",")
+}
+
+var balCache = map[string]int64{}
+
+// feeChain checks, independently of any re-execution, that every charged fee stays charged: the fee log
+// of each transaction must start at its sender's base balance minus all fees charged to that sender
+// earlier in the block (synthetic transactions never move coins), and end exactly one fee lower.
+func feeChain(w *vfexec.World, bi int, flat []vfexec.TxDesc, fees []int64, rs []*types.Receipt, detail string) {
+	running := map[string]int64{}
+	for i, r := range rs {
+		k := string(flat[i].AcctKey)
+		if _, ok := running[k]; !ok {
+			ck := fmt.Sprintf("%d/%s", bi, k)
+			if _, ok := balCache[ck]; !ok {
+				balCache[ck] = w.Balance(bi, flat[i].AcctKey)
+			}
+			running[k] = balCache[ck]
+		}
+		for _, l := range r.Logs {
+			if l.Ty != types.TyLogFee {
+				continue
+			}
+			var t types.ReceiptAccountTransfer
+			if err := types.Decode(l.Log, &t); err != nil {
+				out.Pred("C11|execFee|fee-log-undecodable", detail)
+				continue
+			}
+			if t.GetPrev().GetBalance() != running[k] || t.GetCurrent().GetBalance() != running[k]-fees[i] {
+				out.Pred("C11|execFee|earlier-fee-not-left-behind", detail+fmt.Sprintf(" tx=%d expected=%d:%d log=%d:%d",
+					i, running[k], running[k]-fees[i], t.GetPrev().GetBalance(), t.GetCurrent().GetBalance()))
+			}
+			running[k] = t.GetCurrent().GetBalance()
+			out.Stat("fee_logs_checked", 1)
+		}
+	}
+}
+
 func cloneUnits(us []vfexec.Unit) []vfexec.Unit {
 	c := make([]vfexec.Unit, len(us))
 	for i, u := range us {
@@ -181,6 +243,20 @@ func check(w *vfexec.World, bi int, units []vfexec.Unit) {
 			out.Stat("tx_pack_none_driver", 1)
 		}
 	}
+	var fees []int64 // what each transaction offers: the head of a group pays for all members
+	for _, u := range units {
+		for i := range u.Txs {
+			switch {
+			case !u.Group:
+				fees = append(fees, vfexec.Fee)
+			case i == 0:
+				fees = append(fees, int64(len(u.Txs))*vfexec.Fee)
+			default:
+				fees = append(fees, 0)
+			}
+		}
+	}
+	feeChain(w, bi, flat, fees, a.Receipts, fmt.Sprintf("base=%d block=%s", bi, tokens(units)))
 	firstTx := make([]int, len(units))
 	for i := len(unitOf) - 1; i >= 0; i-- {
 		firstTx[unitOf[i]] = i
@@ -206,57 +282,66 @@ func check(w *vfexec.World, bi int, units []vfexec.Unit) {
 		} else {
 			out.Stat("failed_singles", 1)
 		}
-		bu := cloneUnits(units)
-		bu[ui] = feeOnlyUnit(units[ui])
-		b := w.Run(bi, bu)
-		out.Stat("fee_only_runs", 1)
-		detail := fmt.Sprintf("base=%d unit=%d block=%s", bi, ui, tokens(units))
-		if b.Panicked {
-			// the block without the failed unit's program panics although the original did not
-			out.Pred("C11|"+site+"|fee-only-run-panics", detail)
-			continue
-		}
-		for i := range flat {
-			switch {
-			case unitOf[i] < ui:
+		for variant := 0; variant < 2; variant++ {
+			bu := cloneUnits(units)
+			if variant == 0 {
+				bu[ui] = feeOnlyUnit(units[ui])
+			} else {
+				bu[ui] = okOnlyUnit(units[ui])
+			}
+			b := w.Run(bi, bu)
+			out.Stat([]string{"fee_only_runs_failing", "fee_only_runs_succeeding"}[variant], 1)
+			detail := fmt.Sprintf("base=%d unit=%d block=%s", bi, ui, tokens(units))
+			if b.Panicked {
+				// the block without the failed unit's program panics although the original did not
+				out.Pred("C11|"+site+"|fee-only-run-panics", detail)
 				continue
-			case unitOf[i] == ui:
-				// only the fee may remain of the failed unit
-				if kvString(a.Receipts[i]) != kvString(b.Receipts[i]) || a.Receipts[i].Ty != b.Receipts[i].Ty {
-					out.Pred("C11|"+site+"|failed-receipt-keeps-writes", detail+fmt.Sprintf(" tx=%d", i))
-				}
-			default:
-				ra, rb := vfexec.RenderReceipt(a.Receipts[i]), vfexec.RenderReceipt(b.Receipts[i])
-				if ra != rb {
-					out.Pred("C11|"+site+"|later-receipt-differs", detail+fmt.Sprintf(" tx=%d a=%s b=%s", i, ra, rb))
+			}
+			if fa, fb := finalKV(a.Receipts), finalKV(b.Receipts); fa != fb {
+				out.Pred("C11|"+site+"|final-kv-set-differs", detail+" with="+fa+" feeonly="+fb)
+			}
+			for i := range flat {
+				switch {
+				case unitOf[i] < ui:
 					continue
-				}
-				oa, ob := a.Obs[i], b.Obs[i]
-				kinds := readKinds(flat[i])
-				if len(oa) != len(ob) {
-					out.Pred("C11|"+site+"|later-read-count-differs", detail+fmt.Sprintf(" tx=%d", i))
-					continue
-				}
-				for j := range oa {
-					if oa[j] != ob[j] {
-						kind := "local"
-						if j < len(kinds) && kinds[j] == "S" {
-							kind = "state"
-						}
-						sig := "C11|" + site + "|later-" + kind + "-read-differs"
-						if kind == "local" {
-							// S-C11 needs a failed unit, at or before the differing transaction's position, that was
-							// rolled back while local writes were still buffered; anything else is a different defect
-							for uj := 0; uj < unitOf[i]; uj++ {
-								if leaky[uj] {
-									sig += "-after-rollback-with-buffered-local-writes"
-									break
+				case unitOf[i] == ui:
+					// only the fee may remain of the failed unit
+					if kvString(a.Receipts[i]) != kvString(b.Receipts[i]) || (variant == 0 && a.Receipts[i].Ty != b.Receipts[i].Ty) {
+						out.Pred("C11|"+site+"|failed-receipt-keeps-writes", detail+fmt.Sprintf(" tx=%d", i))
+					}
+				default:
+					ra, rb := vfexec.RenderReceipt(a.Receipts[i]), vfexec.RenderReceipt(b.Receipts[i])
+					if ra != rb {
+						out.Pred("C11|"+site+"|later-receipt-differs", detail+fmt.Sprintf(" tx=%d a=%s b=%s", i, ra, rb))
+						continue
+					}
+					oa, ob := a.Obs[i], b.Obs[i]
+					kinds := readKinds(flat[i])
+					if len(oa) != len(ob) {
+						out.Pred("C11|"+site+"|later-read-count-differs", detail+fmt.Sprintf(" tx=%d", i))
+						continue
+					}
+					for j := range oa {
+						if oa[j] != ob[j] {
+							kind := "local"
+							if j < len(kinds) && kinds[j] == "S" {
+								kind = "state"
+							}
+							sig := "C11|" + site + "|later-" + kind + "-read-differs"
+							if kind == "local" {
+								// S-C11 needs a failed unit, at or before the differing transaction's position, that was
+								// rolled back while local writes were still buffered; anything else is a different defect
+								for uj := 0; uj < unitOf[i]; uj++ {
+									if leaky[uj] {
+										sig += "-after-rollback-with-buffered-local-writes"
+										break
+									}
 								}
 							}
+							out.Pred(sig, detail+fmt.Sprintf(" tx=%d read=%d with=%s feeonly=%s", i, j, oa[j], ob[j]))
+							out.Stat("later_"+kind+"_read_differs", 1)
+							break
 						}
-						out.Pred(sig, detail+fmt.Sprintf(" tx=%d read=%d with=%s feeonly=%s", i, j, oa[j], ob[j]))
-						out.Stat("later_"+kind+"_read_differs", 1)
-						break
 					}
 				}
 			}
@@ -501,7 +586,7 @@ func main() {
 		return
 	}
 	g := &genr{w: w, r: gen.New(gen.Seed())}
-	nblocks := gen.Scale(1200, 25000)
+	nblocks := gen.Scale(900, 20000)
 	for i := 0; i < nblocks; i++ {
 		check(w, g.r.Intn(len(w.Bases)), g.block())
 	}
